@@ -974,7 +974,7 @@ class Emit:
             if lf: return lf[0] in self.fns_using_ext
             x = next((self.externs["_".join(path[-k:])] for k in range(len(path), 0, -1) if "_".join(path[-k:]) in self.externs), None)
             return isinstance(x, dict) and x.get("eff", False)
-        if e[0] == "mcall" and e[1][0] == "path" and len(e[1][1]) == 1 and f"{e[1][1][0]}.{e[2]}" in self.unit.get("recv_fx_methods", {}): return True
+        if e[0] == "mcall" and self.recv_name(e[1]) is not None and f"{self.recv_name(e[1])}.{e[2]}" in self.unit.get("recv_fx_methods", {}): return True
         if e[0] == "mcall":
             for key, (ln, it) in self.local_fns.items():
                 if it["name"] == e[2] and it["owner"] and len(it["params"]) == len(e[3]) and e[1] == ("path", ["self"]) and it["owner"] == self.cur_owner:
@@ -1028,13 +1028,18 @@ class Emit:
                 return ("(" + " ".join([self.ctor_path(path)] + a) + ")", False, False)
             raise Unsupported(f"call of unknown function {'::'.join(path)}")
         raise Unsupported("call of a non-path expression")
+    def recv_name(self, recv):
+        """the name a receiver is known by in `recv_fx_methods`: a local variable, or a field of `self` (`self.walker.next()`)"""
+        if recv[0] == "path" and len(recv[1]) == 1: return recv[1][0]
+        if recv[0] == "field" and recv[1] == ("path", ["self"]): return recv[2]
+        return None
     def _mcall(self, e):
         recv, m, args = e[1], e[2], e[3]
         if (m in ERASED_METHODS and not args) or m in ("map_err", "with_context", "context"): return (self.ex(recv), False, False)
-        if recv[0] == "path" and len(recv[1]) == 1 and f"{recv[1][0]}.{m}" in self.unit.get("recv_fx_methods", {}):
+        if self.recv_name(recv) is not None and f"{self.recv_name(recv)}.{m}" in self.unit.get("recv_fx_methods", {}):
             # an operation of the world behind a guard variable (`map.get(&k)` under the mutex): effectful, the guard is dropped
             self.cur_uses_ext = True
-            return ("(" + " ".join([f"ext.{self.unit['recv_fx_methods'][recv[1][0] + '.' + m]}"] + ([self.atom(x) for x in args] or ["()"])) + ")", True, False)
+            return ("(" + " ".join([f"ext.{self.unit['recv_fx_methods'][self.recv_name(recv) + '.' + m]}"] + ([self.atom(x) for x in args] or ["()"])) + ")", True, False)
         # a method of an extern type, selected by the NAME of the receiver variable (two extern types with a method of the same
         # name and arity, e.g. `rolling.digest()` / `hasher.digest()`): a pure operation of `Ext`
         if recv[0] == "path" and len(recv[1]) == 1 and f"{recv[1][0]}.{m}" in self.unit.get("recv_methods", {}):
@@ -1196,7 +1201,7 @@ class Emit:
             L += self.tail(tail, ind, mode)
         elif mode == "val" and not (stmts and self.diverges(stmts[-1])):
             L.append(ind + "pure ()")
-        elif mode == "ret" and stmts and stmts[-1][0] == "expr" and stmts[-1][1][0] == "loop" and self.cur_result and self.effects:
+        elif mode == "ret" and stmts and stmts[-1][0] == "expr" and stmts[-1][1][0] == "loop" and (self.cur_result or self.cur_opt) and self.effects:
             L.append(ind + "throw Rs.Err.other          -- the fuel ran out: the Rust `loop` has no exit at this point")
         elif mode == "ret" and not (stmts and self.diverges(stmts[-1])):
             L.append(ind + ("return self" if self.cur_self == "mut" else "pure ()"))
@@ -1599,6 +1604,10 @@ class Emit:
         self.fns_using_ext.add(ln)
         return f"def {ln} {{W : Type}} (ext : Ext W) " + " ".join(f"({n} : {t})" for n, t, *m in it["params"]) + f" : Rs.M W {rty} := do\n" + "\n".join(L)
     def fn(self, key, ln, it):
+        if key in self.unit.get("self_by_ref", []):
+            # a `&mut self` method whose only mutation goes through a field that is an operation of the world (an iterator, a handle):
+            # `self` itself is read-only in the translation
+            it = dict(it, self="ref")
         self.mut_params = []
         self.cur_fn = key; self.cur_owner = it["owner"] or ""
         self.cur_result = self.is_result(it["ret"]); self.cur_self = it["self"]
